@@ -1,0 +1,102 @@
+//go:build verif
+
+// Contracts for package lzhuf, checked by /verif/govc. This file contains no
+// code: with the verif tag off it is not compiled at all, with it on it adds
+// only comments.
+package lzhuf
+
+/*@
+# ---------------------------------------------------------------------------
+# Representation invariant of the adaptive Huffman tree (FGK sibling property)
+#   freq[0..T]      node weights, freq[T] is the 0xffff sentinel
+#   son[0..T)       smaller child (internal: index < T) or leaf code (>= T)
+#   prnt[0..T+N)    parent of node k (k < T), position of leaf code k (k >= T)
+# ---------------------------------------------------------------------------
+
+pred Internal(z, i) := z.son[i] < _T
+
+pred SonOK(z, i) := (0 <= z.son[i] && z.son[i] + 1 < i) || (_T <= z.son[i] && z.son[i] < _T + _NumChar)
+
+pred Sorted(z) := forall a, b :: 0 <= a && a <= b && b < _T ==> z.freq[a] <= z.freq[b]
+
+pred TreeShape(z) :=
+     z.freq[_T] == 65535
+  && (forall i :: 0 <= i && i < _T ==> 1 <= z.freq[i])
+  && Sorted(z)
+  && (forall i :: 0 <= i && i < _T ==> SonOK(z, i))
+  && (forall i :: 0 <= i && i < _T ==> z.prnt[z.son[i]] == i && (Internal(z, i) ==> z.prnt[z.son[i] + 1] == i))
+  && (forall k :: 0 <= k && k < _R ==> k < z.prnt[k] && z.prnt[k] <= _R && (z.son[z.prnt[k]] == k || z.son[z.prnt[k]] + 1 == k))
+  && z.prnt[_R] == 0
+  && (forall k :: _T <= k && k < _T + _NumChar ==> 0 <= z.prnt[k] && z.prnt[k] < _T && z.son[z.prnt[k]] == k)
+
+pred SumAt(z, i) := z.freq[i] == z.freq[z.son[i]] + z.freq[z.son[i] + 1]
+
+pred HuffInv(z) :=
+     TreeShape(z)
+  && (forall i :: 0 <= i && i < _T && Internal(z, i) ==> SumAt(z, i))
+  && z.freq[_R] <= 32768
+
+# ---------------------------------------------------------------------------
+# bit reader
+# ---------------------------------------------------------------------------
+
+func lzhuf.(*bitReader).ReadBits64(br, bits) (n)
+  props C08 C03
+  inline
+  requires src: br.r != nil
+
+func lzhuf.(*Reader).getBit(d) (c)
+  props C08 C03
+  requires src: d.r.r != nil
+  ensures bit: c == 0 || c == 1
+  ensures src: d.r.r != nil
+
+func lzhuf.(*Reader).getByte(d) (c)
+  props C08 C03
+  requires src: d.r.r != nil
+  ensures byte: 0 <= c && c <= 255
+  ensures src: d.r.r != nil
+
+func lzhuf.(*Reader).advanceState(d) ()
+  props C08 C03
+  requires r: 0 <= d.state.r && d.state.r < 2048
+  ensures r: d.state.r == (old(d.state.r) + 1) % 2048
+  ensures pos: d.state.pos == wrap32s(old(d.state.pos) + 1)
+
+# ---------------------------------------------------------------------------
+# adaptive Huffman decoding
+# ---------------------------------------------------------------------------
+
+func lzhuf.(*lzhuf).update(z, c) ()
+  props C08 C06 C03
+  requires inv: HuffInv(z)
+  requires sym: 0 <= c && c < _NumChar
+  ensures inv: HuffInv(z)
+  loop 0 invariant cur: 0 <= c && c <= _R
+  loop 0 invariant shape: TreeShape(z)
+  loop 0 invariant sums: forall i :: 0 <= i && i < _T && Internal(z, i) ==> (i != c ==> SumAt(z, i)) && (i == c ==> z.freq[i] + 1 == z.freq[z.son[i]] + z.freq[z.son[i] + 1])
+  loop 0 invariant cap: z.freq[_R] < 32768
+  loop 0 decreases _R - c
+  loop 1 invariant l: c < l && l <= _R
+  loop 1 invariant below: forall m :: c < m && m <= l ==> z.freq[m] < k
+  loop 1 decreases _R - l
+
+func lzhuf.(*lzhuf).reconst(z) ()
+  props C08 C06 C03
+  trusted
+  requires shape: TreeShape(z)
+  ensures inv: HuffInv(z) && z.freq[_R] < 32768
+
+func lzhuf.(*Reader).decodeChar(d) (c)
+  props C08 C03
+  requires src: d.r.r != nil
+  requires z: d.z != nil && HuffInv(d.z)
+  ensures sym: 0 <= c && c < _NumChar
+  ensures z: d.z == old(d.z) && HuffInv(d.z)
+  ensures src: d.r.r != nil
+  ensures frame: d.state.r == old(d.state.r) && d.state.pos == old(d.state.pos) && d.header.size == old(d.header.size) && d.state.buf.len == old(d.state.buf.len)
+  loop 0 invariant node: (0 <= c && c + 1 < _R) || (_T <= c && c < _T + _NumChar)
+  loop 0 invariant z: d.z == old(d.z) && d.z != nil && HuffInv(d.z) && d.r.r != nil
+  loop 0 invariant frame: d.state.r == old(d.state.r) && d.state.pos == old(d.state.pos) && d.header.size == old(d.header.size) && d.state.buf.len == old(d.state.buf.len)
+  loop 0 decreases ite(c < _T, c + 1, 0)
+@*/
